@@ -259,6 +259,9 @@ class CallListerVisitor(ast.NodeVisitor):
                 self.visit(name)
 
     def visit_FunctionDef(self, node):
+        name = getattr(node, 'name', None)
+        if name is not None: # a nested def binds its name, a lambda does not
+            self._rebound(name)
         self.namespace = Namespace(self.namespace)
         self.process_parameters(node.args)
         body = node.body
